@@ -344,6 +344,7 @@ namespace Givaro {
         Rep primeorder;
 
         for(bool exemp = true; exemp; this->nextprimein(prime) ) {
+            newLf.resize(0); oldLf.resize(0);
             A = prime;
             primeorder = phin;
             for(typename Array::const_iterator f = Lf.begin(); f != Lf.end(); ++f) {
